@@ -311,13 +311,40 @@ def main():
     for f in open_f:
         if f["id"] not in seen_findings:
             notes.append(f"known finding {f['id']} no longer reproduces on this tree")
-    for fid, (f, l, a, b) in seen_findings.items():
-        print(f"KNOWN-FINDING: property={prop} {f['what']} [e.g. `{l}` impl={a} expected={b}]")
+    # property-level oracle ops: for ops listed in spec_ops the driver also evaluates the *specification*
+    # function (not the as-coded model); the implementation is compared with it directly.
+    spec_ops = spec.get("spec_ops", {})
+    n_spec = 0
+    if spec_ops:
+        idx = [i for i, l in enumerate(lines) if l.split(" ", 1)[0] in spec_ops]
+        slines = [spec_ops[lines[i].split(" ", 1)[0]] + " " + lines[i].split(" ", 1)[1] for i in idx]
+        souts = run_driver(slines)
+        n_spec = len(slines)
+        for i, sl, so in zip(idx, slines, souts):
+            if so.startswith("?"):
+                diffs.append((sl, impl[i], so, "protocol"))
+                continue
+            if impl[i] == so:
+                continue
+            hit = None
+            for f in open_f:
+                if R.in_region(f["region"], lines[i], impl[i], so):
+                    hit = f
+                    break
+            if hit:
+                seen_findings.setdefault(hit["id"], (hit, lines[i], impl[i], so))
+            else:
+                diffs.append((lines[i], impl[i], so, "spec-disagreement"))
+        # re-evaluate "no longer reproduces" notes now that spec findings are known
+        notes[:] = [n for n in notes if not any(fid in n for fid in seen_findings)]
 
     # extra (property-level predicates evaluated directly on implementation outputs)
     if extra:
         for v in extra(prop, lines, impl, model, open_f):
             diffs.append(v)
+
+    for fid, (f, l, a, b) in seen_findings.items():
+        print(f"KNOWN-FINDING: property={prop} {f['what']} [e.g. `{l}` impl={a} expected={b}]")
 
     rc = 0
     if diffs:
